@@ -466,7 +466,12 @@ impl Envelope {
         // key is the one whose key decrypts the subject.
         let mut result = Err(EnvelopeError::UnknownRecipient.into());
         for content_key_data in Self::plaintexts_in_sealed_messages(&sealed_messages, recipient) {
-            let content_key = SymmetricKey::from_tagged_cbor_data(content_key_data)?;
+            // A sealed message that opens with this key but does not hold a
+            // content key is not this envelope's (anyone who knows the public
+            // key can add one): try the next.
+            let Ok(content_key) = SymmetricKey::from_tagged_cbor_data(content_key_data) else {
+                continue;
+            };
             result = self.decrypt_subject(&content_key);
             if result.is_ok() {
                 break;
